@@ -107,6 +107,23 @@ CLAIMED.update({
     technique="contract-based deductive verification: symbolic record heap + table frames, z3"),
 })
 
+CLAIMED.update({
+ "C06": dict(category="proof",
+    text="The session phase gate is proved per message class: before the session is established every message other than "
+         "WELCOME/ABORT/CHALLENGE raises ProtocolError with no effect, afterwards the handshake and client-to-router types do; "
+         "GOODBYE is answered exactly when this side did not initiate closing and ends the session with one onLeave; leave() "
+         "sends GOODBYE at most once; onClose clears transport and session id and fires onLeave exactly when a joined "
+         "session ends, then onDisconnect; _errback_outstanding_requests empties all six request tables and completes "
+         "every future that was pending (loop invariants over an unbounded number of requests); the default "
+         "onLeave/onDisconnect call it; publish/call/subscribe/register/_unsubscribe/_unregister raise TransportLost "
+         "with nothing sent or recorded once the transport is gone.",
+    note="Trusted: z3, pyvc (record heap, symbolic tables, dict.values() as a sequence containing every present value), "
+         "txaio as_future/add_callbacks (callback *order* connect<join<leave<disconnect across future chains is assumed), "
+         "message constructors as records. Not covered: the WELCOME/ABORT/CHALLENGE arms (closure chains over txaio), "
+         "join(), at-most-once onClose from the transports (C13).",
+    technique="contract-based deductive verification: per-message-class units, symbolic tables + record heap, z3"),
+})
+
 PENDING_REASON = "contracts for this property are not yet discharged in this snapshot of /verif (build in progress, see DESIGN.md section 8); nothing is claimed"
 
 def main():
